@@ -23,7 +23,9 @@ if TYPE_CHECKING:
 from exabgp.bgp.message import _NOP, EOR, KeepAlive, Message, Notification, Notify, Open, Operational, Update
 from exabgp.bgp.message.direction import Direction
 from exabgp.bgp.message.open import RouterID, Version
-from exabgp.bgp.message.open.capability import Capabilities, Negotiated
+from exabgp.bgp.message.open.asn import ASN, AS_TRANS
+from exabgp.bgp.message.open.capability import Capabilities, Capability, Negotiated
+from exabgp.bgp.message.open.capability.asn4 import ASN4
 from exabgp.bgp.message.refresh import RouteRefresh
 from exabgp.bgp.message.update import UpdateCollection
 from exabgp.bgp.message.update.attribute import Attribute, AttributeCollection
@@ -376,10 +378,20 @@ class Protocol:
         """Create and send OPEN message using async I/O."""
         assert self.connection is not None
         assert self.neighbor.session.router_id is not None
+        capabilities = Capabilities().new(self.neighbor, self.peer._restarted)
         if self.neighbor.session.local_as:
             local_as = self.neighbor.session.local_as
         elif self.negotiated.received_open:
-            local_as = self.negotiated.received_open.asn
+            # `local-as auto` mirrors the peer's AS: its true AS is in its ASN4 capability when the
+            # OPEN field only holds AS_TRANS, and our own ASN4 capability has to carry what we
+            # mirror (it was built from the configured local AS, which is 0 here)
+            received_open = self.negotiated.received_open
+            local_as = received_open.asn
+            peer_asn4 = received_open.capabilities.get(Capability.CODE.FOUR_BYTES_ASN, None)
+            if local_as == AS_TRANS and isinstance(peer_asn4, ASN):
+                local_as = ASN(int(peer_asn4))
+            if Capability.CODE.FOUR_BYTES_ASN in capabilities:
+                capabilities[Capability.CODE.FOUR_BYTES_ASN] = ASN4(local_as)
         else:
             raise RuntimeError('no ASN available for the OPEN message')
 
@@ -388,7 +400,7 @@ class Protocol:
             local_as,
             self.neighbor.hold_time,
             self.neighbor.session.router_id,
-            Capabilities().new(self.neighbor, self.peer._restarted),
+            capabilities,
         )
 
         # we do not buffer open message in purpose
